@@ -25,9 +25,9 @@ VERSION = 1
 BUDGET = {'quick': 50, 'thorough': 600}
 CHUNK = {'quick': 10, 'thorough': 20}
 RULE = ('one case = one seeded history (8-40 ops) of unconditional GETs, conditional GETs (If-None-Match: current / '
-        'previous / garbage; If-Modified-Since: before / equal / after / malformed), clock advances, rewrites through the '
+        'previous / garbage; If-Modified-Since: before / equal / after / previous copy / ancient / malformed, spelled as IMF-fixdate, RFC 850 or asctime), clock advances, rewrites through the '
         'expiry path and upstream-500 periods, over 2-4 tile URLs of one service flavour (TMS, KML, WMTS REST, WMTS KVP, '
-        'WMS-C) on one backend; non-trivial = at least one conditional request was judged against a cached tile or a fill '
+        'WMS-C) on one backend in a seeded fixed-offset local time zone; non-trivial = at least one conditional request was judged against a cached tile or a fill '
         'image was served; distinct = distinct (deployment, ops) hash')
 COMPONENTS = {
     'real': ['mapproxy.config.loader.ProxyConfiguration (app built from a config dict)', 'mapproxy.wsgiapp.MapProxyApp',
